@@ -84,6 +84,27 @@ def ensure_protocols():
         _protocols_loaded = True
 
 
+def matchers_from_command_line(filt, stop, color=False):
+    """-> (filter matcher, breakpoint matcher) as parse_args() produces them for `-f filt -b stop`; an argument that is
+    not text is passed through unchanged."""
+    import contextlib
+    import io
+    from frontends.tui import parse_args
+    from core import util
+    words = ['wayland-debug', '--color' if color else '-C']
+    if isinstance(filt, str):
+        words += ['-f', filt]
+    if isinstance(stop, str):
+        words += ['-b', stop]
+    words += ['-l', '/nonexistent/verif.log']
+    with contextlib.redirect_stdout(io.StringIO()), contextlib.redirect_stderr(io.StringIO()):
+        args = parse_args(words)
+    util.set_color_output(bool(color))
+    logging.getLogger().setLevel(logging.WARNING)
+    LOG.take()
+    return (args.filter_matcher if isinstance(filt, str) else filt), (args.stop_matcher if isinstance(stop, str) else stop)
+
+
 class Session:
     """The log-mode pipeline as the user sees it:
     lines -> Parser -> ConnectionManager -> Controller -> out / err streams.
@@ -101,10 +122,9 @@ class Session:
         self.err = stream.String()
         self.output = Output(False, unprocessed, self.out, self.err)
         self.cm = ConnectionManager()
-        if isinstance(filt, str):
-            filt = matcher.parse(filt).simplify()
-        if isinstance(stop, str):
-            stop = matcher.parse(stop).simplify()
+        if isinstance(filt, str) or isinstance(stop, str):
+            # matchers given as text come in the way -f / -b values do: through the tool's own command-line parsing
+            filt, stop = matchers_from_command_line(filt, stop, color)
         self.ctl = Controller(self.output, self.cm,
                               filt if filt is not None else matcher.always,
                               stop if stop is not None else matcher.never)
